@@ -243,7 +243,7 @@ def plan(prop, tier):
         P["dims"]["c19_walk_lim"] = [dims("store", nkeys=2, concr="limits"), dims("store", nkeys=2, concr="limits", compaction="force", allocBatches=True)]
         if not q:
             P["sim"].append(("c19_walk_lim28", C(NKeys=1, MaxBatches=3, MaxOps=1, MaxPokes=1, SimLen=10, MaxReopens=1, OpAlpha='{"s1","s2","d"}'), 6))
-            P["dims"]["c19_walk_lim28"] = [dims("store", nkeys=1, concr="limits28", shards=2), dims("store", nkeys=1, concr="limits28", allocBatches=True, compaction="force", shards=2)]
+            P["dims"]["c19_walk_lim28"] = [dims("store", nkeys=1, concr="limits28", shards=1), dims("store", nkeys=1, concr="limits28", allocBatches=True, compaction="force", shards=1)]
         # persisted segments opened with a key index (SegmentKeysIndexMinKeyBytes lowered) of a quota that runs out mid-way, keys of very different lengths
         P["sim"].append(("c19_walk_idx", C(NKeys=6, MaxOps=6, MaxBatches=4, MaxPokes=1, SimLen=16, MaxReopens=1, OpAlpha='{"s1","s2","d"}'), 60 if q else 500))
         P["dims"]["c19_walk_idx"] = [dims("store", nkeys=6, concr="edge", seed=sd0 + i, indexMinKeyBytes=1, indexMaxBytes=mx, compaction=c)
